@@ -51,6 +51,10 @@ def run_case(run, drv, case):
                 result, stream = impl.recheck(mpath, path)
                 EXPECT[id(case)] = ([f"{1 if o else 0}:{s}" for o, s in stream],
                                     [f"{1 if o else 0}:{s}" for o, s in ref])
+                sub = dict(case, content=label)
+                EXPECT[("full", id(sub))] = EXPECT[id(case)]
+                full_model(drv, sub, raw, files, state, label == "parent",
+                           os.path.basename(path))
             except Exception as exc:
                 run.fail("impl-vs-spec", dict(case, content=label), {"raised": repr(exc)})
                 continue
@@ -101,6 +105,21 @@ def rc_model(drv, case, raw, files, state):
                 ("hashcheck", case))
 
 
+def full_model(drv, case, raw, files, state, via_parent, argname):
+    """Queue the Lean model of the WHOLE Checker (metafile bytes + disk + content argument)."""
+    from harness.common import hx
+    pairs = []
+    for rel, _ in files:
+        data = state.get(rel)
+        if data is None:
+            continue
+        relp = "-" if case["single"] else rel
+        pairs += [relp if relp == "-" else hx(relp.encode("utf8")), "h" + (data.hex() or "-")]
+    drv.ask(f"recheckfull {hx(raw)} {'parent' if via_parent else 'root'} "
+            f"{hx(argname.encode('utf8'))} {rc.B} {len(pairs) // 2} " + " ".join(pairs),
+            ("full", case))
+
+
 def settle(run, drv, expected_by_case):
     """Compare driver answers `<impl list> | <spec list>` with the implementation streams."""
     import os as _os
@@ -112,7 +131,7 @@ def settle(run, drv, expected_by_case):
             raise MachineryError(f"driver: {req[:50]} -> {out[:100]}")
         run.model_checked += 1
         left, _, right = out.partition("|")
-        key = id(case)
+        key = id(case) if kind != "full" else ("full", id(case))
         want = expected_by_case.get(key)
         if want is None:
             continue
